@@ -70,6 +70,37 @@ def is_panic_call(nm):
     return nm.startswith(PANICS)
 
 
+def bounds_ok(prog, c, bi, t):
+    """I6: `xs[k]` (k a literal) on a slice: the lengths 0..k are excluded at this point — by a test
+    in the function itself, or, when xs is a parameter, at every call site of the function."""
+    from engine.analysis import cmp_operands, len_of
+    idx = len(c.body.blocks[bi]["stmts"])
+    cond = c.T.operand(t["cond"], bi, idx)
+    co = cmp_operands(cond)
+    if co is None or co[0] != "Lt":
+        return False
+    kk, x = const_int(co[1]), len_of(co[2])
+    if kk is None or x is None or kk > 8:
+        return False
+    xn = norm(x)
+    if not (x[0] == "param"):
+        return all(bi not in c.assume_len(lambda y: norm(y) == xn, v).settle().T.reach for v in range(0, kk + 1))
+    # parameter: every caller must exclude the short lengths before the call
+    ncalls = 0
+    for cb in prog.fn_bodies(c.body.crate):
+        for cbi, ct in cb.calls():
+            if ct.get("rkey") != c.body.key:
+                continue
+            ncalls += 1
+            cc = Ctx(cb)
+            arg = cc.T.operand(ct["args"][x[1] - 1], cbi, len(cb.blocks[cbi]["stmts"]))
+            an = norm(arg)
+            for v in range(0, kk + 1):
+                if cbi in cc.assume_len(lambda y: norm(y) == an, v).settle().T.reach:
+                    return False
+    return ncalls > 0
+
+
 def run(R, env):
     prog = env.prog("default")
     R.rule("C16.R1", "inventory: every unwrap / expect / index / slice / explicit panic construct in non-derive code reachable from the entry points of both contracts is listed and must be discharged by R2")
@@ -103,7 +134,7 @@ def run(R, env):
             if t["k"] == "assert":
                 if t["what"] == "bounds":
                     nsites += 1
-                    R.ob("C16.R2", "bounds-check", False, "raw index with a bounds assertion (no idiom recognised)", loc=b.loc(bi), fn=k)
+                    R.ob("C16.R2", "bounds-check", bounds_ok(prog, c, bi, t), "raw index with a bounds assertion that is not excluded by a length test in this function or in every caller", loc=b.loc(bi), fn=k)
                 else:
                     arith.append("%s %s" % (b.loc(bi), t["what"]))
                 continue
